@@ -8,12 +8,12 @@ def pfields(ct):
     flt = g('filter')[0]
     return {'le': g('le')[0], 'tab': int(g('tab')[0]), 'scanner': g('scanner')[0], 'filter': None if flt == 'none' else flt,
             'sink': g('sink')[0] == '1', 'pushed': g('pushed'), 'fmt': g('fmt')[0], 'runs': int(g('runs')[0]),
-            'text': g('text'), 'g': g('g')[0]}
+            'text': g('text'), 'g': g('g')[0], 'order': 'fm' if any(isinstance(x, list) and x[:2] == ['order', 'fm'] for x in f) else 'mf'}
 
 def mk_case(cid, c, text=None, g=None):
     return parsegen.parse_case(cid, c['text'] if text is None else text, c['g'] if g is None else g, le=c['le'], tab=c['tab'],
                                scanner=c['scanner'], flt=('none' if c['filter'] is None else c['filter']),
-                               sink=1 if c['sink'] else 0, pushed=[int(x) for x in c['pushed']], fmt=int(c['fmt']), runs=c['runs'])
+                               sink=1 if c['sink'] else 0, pushed=[int(x) for x in c['pushed']], fmt=int(c['fmt']), runs=c['runs'], order=c.get('order', 'mf'))
 
 def run_result(run):
     """(run (ok V) LX) | (run (err E)) | (run PANIC) | (run DIVERGED) -> (kind, payload, lx-dict)"""
